@@ -31,6 +31,14 @@ func verifLossyConfig(opts *EncoderOptions, hasAlpha bool) lossy.EncodeConfig {
 	}
 	cfg.QMin = opts.QMin
 	cfg.QMax = resolveQMax(opts.QMax)
+	if cfg.TargetSize > 0 || cfg.TargetPSNR > 0 {
+		if cfg.Quality < cfg.QMin {
+			cfg.Quality = cfg.QMin
+		}
+		if cfg.Quality > cfg.QMax {
+			cfg.Quality = cfg.QMax
+		}
+	}
 	if opts.SNSStrength >= 0 {
 		cfg.SNSStrength = opts.SNSStrength
 	}
